@@ -44,6 +44,7 @@ type mop struct {
 type fakeStore struct {
 	storepb.StoreClient
 	frames []*storepb.SeriesResponse
+	fail   bool
 }
 
 type fakeStream struct {
@@ -54,6 +55,9 @@ type fakeStream struct {
 }
 
 func (f *fakeStore) Series(ctx context.Context, _ *storepb.SeriesRequest, _ ...grpc.CallOption) (storepb.Store_SeriesClient, error) {
+	if f.fail {
+		return nil, fmt.Errorf("injected open failure")
+	}
 	return &fakeStream{ctx: ctx, frames: f.frames}, nil
 }
 
@@ -83,6 +87,8 @@ type input struct {
 	Sharded bool  `json:"sharded,omitempty"`
 	Lazy    bool  `json:"lazy,omitempty"`
 	Limit   int64 `json:"limit,omitempty"`
+	Reqs    int   `json:"reqs,omitempty"`  // concurrent requests (default 1)
+	NFail   int   `json:"nfail,omitempty"` // the first NFail stores refuse the stream
 	Kind   string  `json:"kind"` // pool | shard | proxy
 	Min    int     `json:"min,omitempty"`
 	Max    int     `json:"max,omitempty"`
@@ -194,6 +200,80 @@ func facts(repo string, w io.Writer) error {
 		}
 		fmt.Fprint(w, coqStrList(fn.n, cs))
 	}
+	// every place where the loser tree calls its close callback
+	s5, err := common.ParseSrc(repo, "pkg/losertree/tree.go")
+	if err != nil {
+		return err
+	}
+	var treeCloses []string
+	for _, d := range s5.File.Decls {
+		fd, ok := d.(*ast.FuncDecl)
+		if !ok || fd.Body == nil {
+			continue
+		}
+		ast.Inspect(fd.Body, func(n ast.Node) bool {
+			if ce, ok := n.(*ast.CallExpr); ok {
+				if se, ok := ce.Fun.(*ast.SelectorExpr); ok && se.Sel.Name == "close" && len(ce.Args) == 1 {
+					treeCloses = append(treeCloses, fd.Name.Name+": "+s5.ExprString(ce.Fun)+"("+s5.ExprString(ce.Args[0])+")")
+				}
+			}
+			return true
+		})
+	}
+	fmt.Fprint(w, coqStrList("loserTreeCloseSites", treeCloses))
+	// Close calls on response sets / the loser tree in the two Series implementations, and none in newAsyncRespSet
+	closeCalls := func(sf *common.SrcFile, fn string) ([]string, error) {
+		evs, err := sf.CallOrder(fn)
+		if err != nil {
+			return nil, err
+		}
+		var out []string
+		for _, e := range evs {
+			if (e.Kind == "call" || e.Kind == "defer") && strings.HasSuffix(e.Text, ".Close") {
+				out = append(out, e.Kind+" "+e.Text)
+			}
+		}
+		return out, nil
+	}
+	pc, err := closeCalls(s3, "ProxyStore.Series")
+	if err != nil {
+		return err
+	}
+	fmt.Fprint(w, coqStrList("proxySeriesCloseCalls", pc))
+	s6, err := common.ParseSrc(repo, "pkg/store/bucket.go")
+	if err != nil {
+		return err
+	}
+	bc, err := closeCalls(s6, "BucketStore.Series")
+	if err != nil {
+		return err
+	}
+	fmt.Fprint(w, coqStrList("bucketSeriesCloseCalls", bc))
+	ac, err := closeCalls(s4, "newAsyncRespSet")
+	if err != nil {
+		return err
+	}
+	fmt.Fprint(w, coqStrList("newAsyncRespSetCloseCalls", ac))
+	aevs, err := s4.CallOrder("newAsyncRespSet")
+	if err != nil {
+		return err
+	}
+	var head []common.Event
+	for _, e := range aevs { // up to the end of the first error branch
+		head = append(head, e)
+		if e.Kind == "endif" && len(head) > 3 {
+			hasRet := false
+			for _, h := range head {
+				if h.Kind == "return" {
+					hasRet = true
+				}
+			}
+			if hasRet {
+				break
+			}
+		}
+	}
+	fmt.Fprintln(w, common.EventsCoq("newAsyncRespSetOpenEvents", head))
 	return nil
 }
 
@@ -284,7 +364,7 @@ func run(raw json.RawMessage) (common.Case, error) {
 		defer debug.SetGCPercent(old)
 		var clients []store.Client
 		for i := 0; i < in.Stores; i++ {
-			fs := &fakeStore{}
+			fs := &fakeStore{fail: i < in.NFail}
 			for j := 0; j < in.Series; j++ {
 				fs.frames = append(fs.frames, storepb.NewSeriesResponse(&storepb.Series{
 					Labels: []labelpb.ZLabel{{Name: "a", Value: fmt.Sprintf("s%02d_%03d", i, j)}},
@@ -306,22 +386,42 @@ func run(raw json.RawMessage) (common.Case, error) {
 		if in.Sharded {
 			req.ShardInfo = &storepb.ShardInfo{ShardIndex: 0, TotalShards: 2, By: true, Labels: []string{"a"}}
 		}
-		srv := &recServer{}
-		if err := p.Series(req, srv); err != nil {
-			return c, fmt.Errorf("proxy Series: %w", err)
+		reqs := in.Reqs
+		if reqs < 1 {
+			reqs = 1
 		}
+		var wg sync.WaitGroup
+		errs := make([]error, reqs)
+		nresp := make([]int, reqs)
+		for q := 0; q < reqs; q++ {
+			wg.Add(1)
+			go func(q int) {
+				defer wg.Done()
+				srv := &recServer{}
+				rq := *req
+				errs[q] = p.Series(&rq, srv)
+				nresp[q] = srv.n
+			}(q)
+		}
+		wg.Wait()
+		for _, e := range errs {
+			if e != nil {
+				return c, fmt.Errorf("proxy Series: %w", e)
+			}
+		}
+		srv := &recServer{n: nresp[0]}
 		// take more buffers out of the proxy's pool than the request can have put back: a pointer
 		// that comes out twice was put twice
 		seenPtr := map[*[]byte]int{}
 		dup := false
-		for k := 0; k < 2*in.Stores+3; k++ {
+		for k := 0; k < 2*in.Stores*reqs+3; k++ {
 			b := p.VerifC17TakeBuffer()
 			seenPtr[b]++
 			if seenPtr[b] > 1 {
 				dup = true
 			}
 		}
-		c.Coq = common.App("CProxy", common.Nat(in.Stores), common.Bool(in.Sharded), common.Bool(dup))
+		c.Coq = common.App("CProxy", common.Nat(reqs), common.Nat(in.Stores), common.Nat(in.NFail), common.Bool(in.Sharded), common.Bool(dup))
 		c.Obs = map[string]any{"responses": srv.n, "buffer_taken_twice": dup}
 		c.Class = "proxy"
 		if in.Sharded {
@@ -409,7 +509,10 @@ func gen(r *rand.Rand, tier string, n int) []any {
 	}
 	ip := func(v int) *int { return &v }
 	for i := 0; i < n/20; i++ {
-		in := input{Kind: "proxy", Stores: 1 + r.Intn(5), Series: r.Intn(6), Sharded: r.Intn(4) != 0, Lazy: r.Intn(2) == 0}
+		in := input{Kind: "proxy", Stores: 1 + r.Intn(5), Series: r.Intn(6), Sharded: r.Intn(4) != 0, Lazy: r.Intn(2) == 0, Reqs: 1 + r.Intn(3)}
+		if r.Intn(3) == 0 {
+			in.NFail = r.Intn(in.Stores + 1)
+		}
 		if r.Intn(4) == 0 {
 			in.Limit = int64(1 + r.Intn(4))
 		}
